@@ -119,14 +119,12 @@ func JsonContainerReader(container map[string]interface{}) node.Node {
 		// until one case aligns with data.  If no cases align then input in inconclusive
 		// i.e. non-discriminating and we should error out.
 		for _, kase := range choice.Cases() {
-			for _, prop := range kase.DataDefinitions() {
-				if _, found := fqkGet(prop, container); found {
-					return kase, nil
-				}
-				// just because you didn't find a property doesnt
-				// mean it's invalid, it's only if you don't find any
-				// of the properties of a case
+			if jsonCaseHasData(kase, container) {
+				return kase, nil
 			}
+			// just because you didn't find a property doesnt
+			// mean it's invalid, it's only if you don't find any
+			// of the properties of a case
 		}
 		// just because you didn't find any properties of any cases doesn't
 		// mean it's invalid, just that *none* of the cases are there.
@@ -169,6 +167,23 @@ func JsonContainerReader(container map[string]interface{}) node.Node {
 		return divertedList.Next(r)
 	}
 	return s
+}
+
+// jsonCaseHasData is true if any property of a case, including properties of the
+// cases of nested choices, is present in the data.
+func jsonCaseHasData(kase *meta.ChoiceCase, container map[string]interface{}) bool {
+	for _, prop := range kase.DataDefinitions() {
+		if nested, isChoice := prop.(*meta.Choice); isChoice {
+			for _, nestedCase := range nested.Cases() {
+				if jsonCaseHasData(nestedCase, container) {
+					return true
+				}
+			}
+		} else if _, found := fqkGet(prop, container); found {
+			return true
+		}
+	}
+	return false
 }
 
 func jsonKeyMatches(keyFields []meta.Leafable, candidate map[string]interface{}, key []val.Value) bool {
